@@ -88,8 +88,25 @@ package ramfs
 //@ loop 1 invariant 0 <= i && i <= len(names) && len(ans) == len(names) && off(ans) == 0 && fresh(base(ans)) && ref != nil && forall(j, 0, i, ans[j] != nil) && TREE
 //@ loop 1 invariant preserved("E:*ramfs.FileEnt")
 
-// FileHandle.Walk is not under contract: its four index-translating loops need invariants whose obligations the solvers
-// did not discharge within the quick timeout (see /verif/DESIGN.md); it is listed as not verified in the C18 evidence.
+// FileHandle.Walk: safety contract (no index, slice, nil or append panic in its four index-translating loops, for every
+// name list and every handle whose parent chain holds nodes; the returned lists are as long as the walk got). Which
+// node ends up where (the model-tree clause) is not under contract.
+//@ func (FileHandle).Walk
+//@ property C18
+//@ nolockledger
+//@ timeout 60
+// (handles carry an absolute path; list lengths are far below 2^62, so the length arithmetic cannot wrap)
+//@ requires HOK && TREE && path.IsAbs(h.Path) && len(h.parents) < 4611686018427387904 && len(names) < 4611686018427387904
+//@ ghost gndel int
+//@ at "ans := make([]*FileEnt, ndel)" set gndel(0) := ndel
+//@ ensures lengths: err == nil ==> len(result0) <= len(names)
+// the steps taken by leading ".." names are the handle's ancestors, nearest first
+//@ ensures backward_steps: err == nil ==> (forall j int :: {at(result0, j)} 0 <= j && j < gndel(0) && j < len(result0) ==> at(result0, j) == old(h.parents[len(h.parents) - 1 - j].Info.Qid))
+//@ loop 1 invariant 0 <= ndel && ndel <= len(names)
+//@ loop 2 invariant 0 <= i && i <= ndel && ndel <= len(h.parents) && len(ans) == ndel && off(ans) == 0 && fresh(base(ans)) && forall(j, 0, i, ans[j] != nil) && HOK && TREE && ref != nil && gndel(0) == ndel && (forall j int :: {at(ans, j)} 0 <= j && j < i ==> at(ans, j) == h.parents[len(h.parents) - 1 - j]) && preserved("E:*ramfs.FileEnt")
+//@ loop 3 invariant 0 <= $done && $done <= len(rh.parents) && len(rh.parents) == len(h.parents) - ndel + 1 + len(ans) - ndel && i0 == len(h.parents) - ndel + 1 && 0 <= ndel && ndel <= len(h.parents) && ndel <= len(ans) && fresh(base(rh.parents)) && base(rh.parents) != base(ans) && forall(j, 0, len(ans), ans[j] != nil) && HOK && ref != nil && gndel(0) == ndel && (forall j int :: {at(ans, j)} 0 <= j && j < ndel ==> at(ans, j) == h.parents[len(h.parents) - 1 - j]) && unchanged("ramfs.FileEnt.Info") && preserved("E:*ramfs.FileEnt")
+//@ loop 4 invariant len(qids) == len(ans) && fresh(base(qids)) && forall(j, 0, len(ans), ans[j] != nil) && gndel(0) <= len(ans) && gndel(0) <= len(h.parents) && (forall j int :: {at(ans, j)} 0 <= j && j < gndel(0) ==> at(ans, j) == h.parents[len(h.parents) - 1 - j]) && unchanged("ramfs.FileEnt.Info") && preserved("E:*ramfs.FileEnt")
+//@ loop 4 invariant (forall j int :: {at(qids, j)} 0 <= j && j < $done ==> at(qids, j) == at(ans, j).Info.Qid)
 
 //@ func (*FileEnt).WStat
 //@ property C18
